@@ -360,6 +360,43 @@ pub fn run(tier: &str, seed: u64, out: &str, exe: &str) {
         );
     }
 
+    // ---- (f) a search at the end of a very long game (every position of the game is recorded for
+    // the repetition rule: whatever holds that record must hold thousands of plies), for several
+    // lengths around the powers of two
+    if !rep.saturated() {
+        let game = crate::longgame::very_long_game(4800);
+        let mut lens: Vec<usize> = vec![game.len()];
+        for k in 8..=12 {
+            for d in [0usize, 1, 2] {
+                lens.push((1usize << k) + d - 1);
+            }
+        }
+        lens.retain(|l| *l <= game.len());
+        lens.sort();
+        lens.dedup();
+        let mut jobs: Vec<Vec<String>> = Vec::new();
+        for l in &lens {
+            let pc = format!("position startpos moves {}", game[..*l].iter().map(|m| m.uci()).collect::<Vec<_>>().join(" "));
+            // late in this game many pawns stand one step from promotion and a depth-only search
+            // does not end in practical time (outside the property, like the explosion position):
+            // depth-only only while the pawns are still at home
+            let gos: &[&str] = if *l <= 600 { &["go depth 2", "go movetime 37"] } else { &["go movetime 37", "go movetime 500"] };
+            for g in gos {
+                jobs.push(vec![pc.clone(), g.to_string()]);
+            }
+        }
+        let res: Vec<bool> = par_map(&jobs, |h| {
+            if rep.saturated() {
+                return false;
+            }
+            runs.fetch_add(1, Ordering::Relaxed);
+            gos.fetch_add(1, Ordering::Relaxed);
+            check_history(&rep, exe, h)
+        });
+        eprintln!("[C03] searches after a very long game: {} lengths up to {} plies, {} runs, {} as expected ({:.1}s)", lens.len(), game.len(), jobs.len(), res.iter().filter(|x| **x).count(), rep.elapsed());
+        parts.push(J::obj().set("part", "f: a search at the end of a built legal game of thousands of plies (lengths 2^k-1, 2^k, 2^k+1 for k = 8..12 and the whole game)").set("longest_game_plies", game.len()).set("runs", jobs.len()));
+    }
+
     // ---- (d) single searches of many positions: every special root (with colour mirrors) and
     // bare-material positions x every go set (thorough: also every state one ply from a root)
     if !rep.saturated() {
